@@ -29,6 +29,12 @@ def size_params(c):
     walk(c.get("datainLen"))
     if c["cls"].startswith("ATAPassThrough"):
         out |= {"fetures", "count", "extra_tl"}
+    # independent of the translator: a constructor rewritten into a shape the translator no longer reads must not
+    # lose the allocation cap (the harness would ask the real code for terabyte buffers)
+    names = {p[0] for p in c.get("params", [])}
+    if c["cls"].startswith(("Read", "Write")) and not c["cls"].startswith("WriteSame"):
+        out |= {"tl", "blocksize"} & names
+    out |= {"alloclen", "alloc_len"} & names
     return out
 
 
